@@ -5,6 +5,60 @@
 // (EN 50170-2 / IEC 61158-2 FDL frame formats), and the harness PHY.  Nothing in this file is
 // derived from the implementation under test.
 
+// ---- focus-aware assertions ------------------------------------------------------------------
+//
+// Kani's assert! is check-then-assume: of several oracle assertions on one path only the first
+// can fail, so a failure under one property's label hides the assertions of other properties
+// behind it.  Every oracle assertion therefore goes through `vassert!`.  Normally it is a plain
+// assert!.  When the runner finds a harness failing ONLY under labels of other properties, it
+// re-runs that harness compiled with VERIF_FOCUS=<property>: assertions labelled with other
+// properties are then skipped (neither checked nor assumed), unlabelled ones (harness sanity)
+// stay, and the property's own assertions are decided on all paths.  The decision is made at
+// compile time (const evaluation), so nothing of it reaches the solver.
+
+pub(crate) const FOCUS: Option<&'static str> = option_env!("VERIF_FOCUS");
+
+pub(crate) const fn label_in_focus(msg: &str) -> bool {
+    let p = match FOCUS {
+        Some(p) => p.as_bytes(),
+        None => return true,
+    };
+    if p.len() != 3 {
+        return true;
+    }
+    let m = msg.as_bytes();
+    // labelled message: "Cxx(+Cyy)*/label: text"; anything else is always in focus
+    if m.len() < 4 || m[0] != b'C' {
+        return true;
+    }
+    let mut end = 0;
+    while end < m.len() && m[end] != b'/' && m[end] != b' ' {
+        end += 1;
+    }
+    if end >= m.len() || m[end] != b'/' {
+        return true;
+    }
+    let mut j = 0;
+    while j + 3 <= end {
+        if m[j] == p[0] && m[j + 1] == p[1] && m[j + 2] == p[2] {
+            return true;
+        }
+        j += 1;
+    }
+    false
+}
+
+macro_rules! vassert {
+    ($cond:expr, $msg:literal $(,)?) => {{
+        const IN_FOCUS: bool = $crate::verif_support::label_in_focus($msg);
+        if IN_FOCUS {
+            assert!($cond, $msg);
+        }
+    }};
+    ($($t:tt)+) => { assert!($($t)+) };
+}
+pub(crate) use vassert;
+
 use crate::fdl::{
     DataTelegramHeader, FrameCountBit, FunctionCode, RequestType, ResponseState, ResponseStatus,
 };
@@ -354,10 +408,10 @@ impl<const RXN: usize, const TXN: usize> crate::phy::ProfibusPhy for KPhy<RXN, T
     where
         F: FnOnce(&mut [u8]) -> (usize, R),
     {
-        assert!(!self.transmitting, "C01/phy-contract: no transmission is started while another one is in progress");
+        vassert!(!self.transmitting, "C01/phy-contract: no transmission is started while another one is in progress");
         let (n, r) = f(&mut self.tx[..]);
         if n > 0 {
-            assert!(n <= TXN, "C01/phy-contract: transmitted length lies inside the buffer");
+            vassert!(n <= TXN, "C01/phy-contract: transmitted length lies inside the buffer");
             self.tx_len = n;
             self.tx_calls += 1;
             self.transmitting = true;
@@ -369,10 +423,10 @@ impl<const RXN: usize, const TXN: usize> crate::phy::ProfibusPhy for KPhy<RXN, T
     where
         F: FnOnce(&[u8]) -> (usize, R),
     {
-        assert!(!self.transmitting, "C01/phy-contract: nothing is received while a transmission is in progress");
+        vassert!(!self.transmitting, "C01/phy-contract: nothing is received while a transmission is in progress");
         self.rx_calls += 1;
         let (drop, r) = f(&self.rx[self.rx_off..self.rx_len]);
-        assert!(drop <= self.rx_len - self.rx_off, "C16/phy-contract: never more bytes are dropped than were offered");
+        vassert!(drop <= self.rx_len - self.rx_off, "C16/phy-contract: never more bytes are dropped than were offered");
         self.rx_off += drop;
         r
     }
@@ -518,10 +572,10 @@ impl<const N: usize, const P: usize, const TXN: usize> crate::phy::ProfibusPhy f
     where
         F: FnOnce(&mut [u8]) -> (usize, R),
     {
-        assert!(!self.transmitting, "C01/phy-contract: no transmission is started while another one is in progress");
+        vassert!(!self.transmitting, "C01/phy-contract: no transmission is started while another one is in progress");
         let (n, r) = f(&mut self.tx[..]);
         if n > 0 {
-            assert!(n <= TXN, "C01/phy-contract: transmitted length lies inside the buffer");
+            vassert!(n <= TXN, "C01/phy-contract: transmitted length lies inside the buffer");
             self.tx_len = n;
             self.tx_calls += 1;
             self.transmitting = true;
@@ -541,7 +595,7 @@ impl<const N: usize, const P: usize, const TXN: usize> crate::phy::ProfibusPhy f
     where
         F: FnOnce(crate::fdl::Telegram) -> R,
     {
-        assert!(!self.transmitting, "C01/phy-contract: nothing is received while a transmission is in progress");
+        vassert!(!self.transmitting, "C01/phy-contract: nothing is received while a transmission is in progress");
         self.rx_calls += 1;
         if self.next < self.n {
             let t = self.tel[self.next];
@@ -560,7 +614,7 @@ impl<const N: usize, const P: usize, const TXN: usize> crate::phy::ProfibusPhy f
     where
         F: FnMut(crate::fdl::Telegram, bool) -> R,
     {
-        assert!(!self.transmitting, "C01/phy-contract: nothing is received while a transmission is in progress");
+        vassert!(!self.transmitting, "C01/phy-contract: nothing is received while a transmission is in progress");
         self.rx_calls += 1;
         let mut res = None;
         while self.next < self.n {
@@ -578,7 +632,7 @@ impl<const N: usize, const P: usize, const TXN: usize> crate::phy::ProfibusPhy f
     }
 
     fn poll_pending_received_bytes(&mut self, _now: crate::time::Instant) -> usize {
-        assert!(!self.transmitting, "C01/phy-contract: nothing is received while a transmission is in progress");
+        vassert!(!self.transmitting, "C01/phy-contract: nothing is received while a transmission is in progress");
         self.pending()
     }
 }
